@@ -17,7 +17,7 @@ import numpy as np
 
 from .. import dofs_common as DC
 from .. import universe as U
-from ..core import guarded
+from ..core import guarded, MachineryError
 from ..project import ids, kind_of
 
 RULE = ('scenario = one mesh (integer / dyadic coordinates) with the DOF tables of several elements (one Number event '
@@ -48,7 +48,7 @@ def exec_number(rec):
             ev, err = guarded(call, 60)
         if err:
             ev = DC.number_error_event(err)
-        ev['tags'] = DC.spec_tags(spec, rec['mesh']['kind'])
+        ev['tags'] = {'elem': DC.label(spec)}
         events.append(ev)
     return events
 
@@ -126,8 +126,19 @@ def scenario(sid, rec):
 
 def model(ctx):
     out = os.path.join(ctx.scratch, 'c04_universe.json')
-    ctx.model_must_hold('MC_C04', 'MC_C04.cfg', env={'OUT_FILE': out, 'TIER': ctx.tier},
-                        timeout=1500 if ctx.tier == 'thorough' else 600)
+    from concurrent.futures import ThreadPoolExecutor
+    with ThreadPoolExecutor(max_workers=2) as ex:
+        f1 = ex.submit(ctx.model_must_hold, 'MC_C04', 'MC_C04.cfg', env={'OUT_FILE': out, 'TIER': ctx.tier},
+                       workers=12, timeout=1500 if ctx.tier == 'thorough' else 600)
+        # regression model: the numbering reads element.dim (component count of a vector wrapper) as the spatial
+        # dimension, as before fix bb3ad7e -- TLC must refute it
+        f2 = ex.submit(ctx.tlc_model, 'MC_C04', 'MC_C04_olddim.cfg', env={'OUT_FILE': '', 'TIER': 'quick'}, workers=2,
+                       timeout=600, label='regression model: element.dim read as the spatial dimension (before bb3ad7e)')
+        f1.result()
+        r = f2.result()
+    ctx.notes['old_dim_reading_refuted_by_tlc'] = bool(r['violated'])
+    if not r['violated']:
+        raise MachineryError('MC_C04 does not refute the pre-repair reading of element.dim')
     if not os.path.exists(out):
         return []
     doc = json.load(open(out))
